@@ -139,10 +139,6 @@ def lostOf : P → List Val
   | .fin o => o.lost
   | _ => []
 
-def Op.vals : Op → List Val
-  | .snd _ _ vs => vs
-  | _ => []
-
 def freshVals : P → List Val
   | .fresh _ op => op.vals
   | _ => []
